@@ -21,6 +21,9 @@ pub fn check_lossless<D: Clone>(g: &GraphV<D>, t: &Table, steps: bool) -> R {
         if s.len() < k {
             bail!("node-shorter-than-k", "node {} = {} shorter than K={}", i, node_str(g, i), k);
         }
+        if g.nodes[i].kmer_iter != windows(s, k) {
+            bail!("node-kmer-iteration-differs", "node {} = {}: the k-mers yielded by its sequence's k-mer iterator are not the windows of its bases", i, node_str(g, i));
+        }
         for (off, w) in windows(s, k).iter().enumerate() {
             let (c, _) = canon(w, g.stranded);
             if !t.e.contains_key(&c) {
